@@ -29,6 +29,23 @@ class History:
         self.store = ts.TokenStore.from_tokens(list(self.shadow))
         self.log = []
         self.last = None
+        self.foreign = None
+        self.removed_pool = []
+        self.edited_while_detached = 0
+
+    def new_batch(self):
+        """Tokens to insert: fresh ones, tokens removed earlier (detached since), and - for a third of them - tokens whose text was
+        changed while they were in no store (a token's cached size has to follow its text there too)."""
+        r = self.r
+        out = []
+        for _ in range(batch(r, self.lf)):
+            pool = [t for t in self.removed_pool if t.store_handle is None and not any(t is x for x in out)]
+            t = pool[r.randrange(len(pool))] if pool and r.random() < 0.3 else mk(r)
+            if r.random() < 0.35:
+                t.raw_text = r.choice(UPD)
+                self.edited_while_detached += 1
+            out.append(t)
+        return out
 
     def _span_blocks(self, i, j):
         try:
@@ -54,7 +71,7 @@ class History:
             self.log.append(('update', i, new))
             t.raw_text = new
         elif op in ('ins_after', 'ins_before'):
-            new = [mk(r) for _ in range(batch(r, lf))]
+            new = self.new_batch()
             if n and r.random() < 0.9:
                 i = r.randrange(n)
                 t = shadow[i]
@@ -76,8 +93,9 @@ class History:
             self.log.append((op, i, j, end is not None))
             store.remove(shadow[i], end)
             del shadow[i:j + 1]
+            self.removed_pool = (self.removed_pool + removed)[-40:]
         elif op == 'splice':
-            new = [mk(r) for _ in range(batch(r, lf))]
+            new = self.new_batch()
             if not n or r.random() < 0.08:
                 # pure insertion at a reference (or at the very start with ref=None)
                 if n and r.random() < 0.7:
@@ -120,6 +138,37 @@ class History:
             self.log.append((op, i, j, [shadow.index(x) for x in perm]))
             store.splice(perm, shadow[i], shadow[j])
             shadow[i:j + 1] = perm
+        elif op == 'live' and n >= 3 and r.random() < 0.35:
+            # other calls no list operation corresponds to: a range that ends before it starts, a reference token that lives in
+            # another store. Both must be refused and change nothing; iterating a reversed range yields nothing.
+            how = r.choice(['reversed-splice', 'reversed-remove', 'foreign-ref', 'foreign-query', 'reversed-iter'])
+            i = r.randrange(2, n)
+            j = r.randrange(0, i - 1)          # j <= i - 2: the range really ends before it starts (i-1 would be the empty range at i)
+            info.update(i=i, j=j, live=how, changed=False)
+            self.log.append((op, how, i, j))
+            if self.foreign is None:
+                self.foreign = [mk(r) for _ in range(2 * lf + 1)]
+                self.foreign_store = ts.TokenStore.from_tokens(list(self.foreign))
+            u = r.choice(self.foreign)
+            try:
+                if how == 'reversed-splice':
+                    store.splice([mk(r)], shadow[i], shadow[j])
+                elif how == 'reversed-remove':
+                    store.remove(shadow[i], shadow[j])
+                elif how == 'foreign-ref':
+                    r.choice([store.insert_after, store.insert_before])(u, [mk(r)])
+                elif how == 'foreign-query':
+                    r.choice([store.get_next, store.get_prev, store.get_index, store.get_position])(u)
+                else:
+                    got = list(store.iter(shadow[i], shadow[j]))
+                    if got:
+                        info['live_accepted'] = True
+                    else:
+                        info['live_refused'] = True
+                    return info
+                info['live_accepted'] = True
+            except ValueError:
+                info['live_refused'] = True
         elif op == 'live':
             # a token that is in the store and outside the replaced range is offered again: the store has to refuse (a token has one
             # place) and stay as it is. The token just after the replaced range and the reference itself are the edge cases.
